@@ -1804,7 +1804,7 @@ pub fn json_value(ex: &Extracted) -> Value {
         .iter()
         .map(|m| {
             json!({
-                "name": m.name, "file": m.file, "line": m.line, "kind": m.kind, "params": m.params,
+                "name": m.name, "file": m.file, "kind": m.kind, "params": m.params,
                 "derives_read": m.derives_read, "derives_write": m.derives_write, "public": m.public, "path": m.path,
                 "type_name": m.type_name, "type_required": m.type_required,
                 "checks": m.checks.iter().map(|(k, v)| json!([k, v])).collect::<Vec<_>>(),
